@@ -109,6 +109,8 @@ pub struct Cfg {
     pub pre_polls: usize,
     /// how many cloned wakers the environment may hold at once
     pub pool_max: usize,
+    /// `focus` restricts the per-child operations for *all* children, not only the prefilled ones
+    pub focus_strict: bool,
 }
 
 impl Cfg {
@@ -135,6 +137,7 @@ impl Cfg {
             up_modes: [Mode::Gate, Mode::Ready],
             pre_polls: 0,
             pool_max: 2,
+            focus_strict: false,
         }
     }
     pub fn limit(&self) -> usize {
@@ -303,7 +306,7 @@ impl<'a> Run<'a> {
             for (i, c) in w.children.iter().enumerate() {
                 let id = i as u32;
                 if let Some(fo) = &cfg.focus {
-                    if i < cfg.prefill.len() && !fo.contains(&id) {
+                    if (cfg.focus_strict || i < cfg.prefill.len()) && !fo.contains(&id) {
                         continue;
                     }
                 }
